@@ -7,8 +7,9 @@ types it will compare (`types_to_check`, de-duplicated through `types_seen`), th
 `Model.Layout.checkAll` over them.  This file models the two gathering loops over an abstract module:
 the list of globals (the layers of each global's type that the loop can see) and the list of functions
 (intrinsic tag, template instantiation data).  Which object kinds / intrinsics are matched comes from
-`Gen.LayoutTables.checkedObjects` / `checkedIntrinsics` (re-extracted from the source on every run); the
-fixed text of the loops is pinned by the translator (`Gen.LayoutSites`, an `ExtractError` when it changes).
+`Gen.LayoutTables.checkedObjects` / `checkedIntrinsics`, how the global loop peels a global's type from
+`globalPeelOps`, whether dependent type arguments are skipped from `fnLoopSkipsDependent` (all re-extracted from
+the source on every run); the fixed text of the loops is pinned by the translator (`Gen.LayoutSites`, an `ExtractError` when it changes).
 Core Lean only.
 -/
 namespace RsslVerif.Model.LayoutCollect
@@ -47,10 +48,34 @@ structure Module where
   globals : List Global
   fns : List Fn
 
-/-- `TypeRegistry::remove_modifier` -/
+/-- `TypeRegistry::remove_modifier` = `extract_modifier(id).0`: looks below *one* `Modifier` layer (the registry never
+    puts a modifier on a modifier: `combine_modifier` asserts it) -/
 def removeModifier : GTy → GTy
-  | .modifier t => removeModifier t
+  | .modifier t => t
   | t => t
+
+/-- `TypeRegistry::get_non_array_id`: looks below consecutive `Array` layers (and stops at anything else, a
+    `Modifier` included) -/
+def nonArray : GTy → GTy
+  | .array t => nonArray t
+  | t => t
+
+/-- `while let TypeLayer::Array(inner, _) = layer(ty) { ty = remove_modifier(inner); }` (since fix bdddd35):
+    below every `Array` layer, and below one `Modifier` after each of them -/
+def whileArray : GTy → GTy
+  | .array (.modifier t) => whileArray t
+  | .array t => whileArray t
+  | t => t
+
+def peelStep : PeelOp → GTy → GTy
+  | .removeModifier, t => removeModifier t
+  | .nonArray, t => nonArray t
+  | .whileArrayRemoveModifier, t => whileArray t
+
+/-- the `let ty = …;` statements at the head of the global loop (`Gen.LayoutTables.globalPeelOps`) -/
+def peel : List PeelOp → GTy → GTy
+  | [], t => t
+  | op :: ops, t => peel ops (peelStep op t)
 
 /-- one entry of `types_to_check` -/
 structure Entry where
@@ -68,7 +93,7 @@ def Acc.push (a : Acc) (r : TyRef) (loc : String) : Acc :=
 
 /-- body of `for global in &module.global_registry` -/
 def stepGlobal (a : Acc) (g : Global) : Acc :=
-  match removeModifier g.ty with
+  match peel globalPeelOps g.ty with
   | .object k (some r) => if checkedObjects.contains k then a.push r g.loc else a
   | _ => a
 
@@ -80,6 +105,14 @@ def isStruct : Ty → Bool
 def typeLocation (r : TyRef) : String :=
   if isStruct r.ty then "T" ++ toString r.id else "?"
 
+/-- `is_dependent_type`: is the type built from a template parameter?  (The source also looks through
+    `Vector`, `Matrix` and `Modifier` layers; a vector / matrix of a template parameter is not expressible in `Ty`,
+    modifiers are not modelled.) -/
+def isDependent : Ty → Bool
+  | .other .TemplateParam => true
+  | .arr t _ => isDependent t
+  | _ => false
+
 /-- body of `for i in 0..module.function_registry.get_function_count()` -/
 def stepFn (a : Acc) (f : Fn) : Except Err Acc :=
   match f.intrinsic with
@@ -88,7 +121,8 @@ def stepFn (a : Acc) (f : Fn) : Except Err Acc :=
     if !checkedIntrinsics.contains i then .ok a
     else match f.template with
       | none => .ok a
-      | some [.type r] => .ok (a.push r (typeLocation r))
+      | some [.type r] =>
+        if fnLoopSkipsDependent && isDependent r.ty then .ok a else .ok (a.push r (typeLocation r))
       | some _ => .error (.panic ("invalid " ++ i ++ " intrinsic"))
 
 def foldFns : List Fn → Acc → Except Err Acc
